@@ -452,7 +452,7 @@ func init() {
 		ID:    "C16",
 		Level: "exploration",
 		Rule: "histories are all sequences up to length 2 (quick; length 2 under 3 rotating configurations each) / 3 (thorough: lengths 1-2 under all configurations, length 3 under one rotating configuration each), sampled ones a step longer and random ones of length 30, over 48 concrete operations on a fixed template tree: String of a layout+component+loop page with struct data, of a page reading user.name with a Go struct, with a map holding name and Name, with a lower-case-only map, of two pages that fail at run time after producing output, of a missing name, of a layout name, of a page calling reverse/append/slice/prepend on data arrays; Response ok/failing/missing (the failing ones render the error page through the string API); EvaluateString ok/failing; EvaluateFile ok/missing - on 3 directory/extension settings x debug on/off x custom error page none/valid/failing; also renders without data that assign at top level followed by renders that read the name, loops that fail in a later pass followed by other loops, one page with call arguments built from prefix operators rendered with two data sets, two struct types that print the same type name, and one long-lived pointer that first holds an unsupported value and is then repaired. " +
-			"Each step's observation (output, or message+line+path; body and returned error for Response) is compared with the same operation issued first on a fresh load; after every step the verif hooks VerifFingerprint (loaded ASTs) and VerifState (configuration) must equal their values after load. round 8: signed zeros as strings, literals nested in literals; round 9: literal receivers with arguments from the data; rounds 10-11: slash-wrapped error page paths, data-driven literals and insert arguments, three faults on one line; rounds 12-13: inserts without @use, a record updated in place between calls, character built-ins on the same non-ASCII strings; round 14: slot bodies printing the data, escaped quotes under either quote kind; distinct_nontrivial = distinct (configuration, history) pairs",
+			"Each step's observation (output, or message+line+path; body and returned error for Response) is compared with the same operation issued first on a fresh load; after every step the verif hooks VerifFingerprint (loaded ASTs) and VerifState (configuration) must equal their values after load. round 8: signed zeros as strings, literals nested in literals; round 9: literal receivers with arguments from the data; rounds 10-11: slash-wrapped error page paths, data-driven literals and insert arguments, three faults on one line; rounds 12-13: inserts without @use, a record updated in place between calls, character built-ins on the same non-ASCII strings; round 14: slot bodies printing the data, escaped quotes under either quote kind; round 17: a page of literals holding escaped characters; distinct_nontrivial = distinct (configuration, history) pairs",
 		Assumptions: []string{
 			"the baseline of an operation is its result as the first call of a fresh process that loaded the same tree with the same configuration (one child process per operation and configuration)",
 		},
